@@ -93,7 +93,8 @@ MWEIGHTS = {
     'server_traits': 1, 'presence_down': 4, 'presence_up': 4, 'server_state': 3,
     'blacklist': 2, 'group': 3, 'del_group': 1, 'clock': 6, 'cell_event': 1,
     'integrity': 2, 'restart': 0, 'noop': 1, 'blackout_server': 1, 'partition_schedule': 1, 'bucket_new': 1,
-    'stale_finished': 1, 'swap_apps': 1,
+    'stale_finished': 1, 'swap_apps': 1, 'retention_update': 1, 'bucket_remove': 0, 'server_delete_event_lost': 1,
+    'servers_reload_all': 1,
 }
 
 
@@ -237,6 +238,7 @@ class MasterDriver:
             self.api.create_bucket(self.admin, name, parent)
         if parent is None:
             self.api.cell_insert_bucket(self.admin, name)
+            self.Z.setdefault('cell_members', set()).add(name)
         self.Z['buckets'][name] = parent
         self.H.buckets[name] = dict(level=level, parent=parent)
 
@@ -267,7 +269,7 @@ class MasterDriver:
         mem = rng.choice([4, 6, 8, 10, 12, 16]) * 1024
         cpu = rng.choice([4, 6, 8, 10, 12, 16]) * 100
         if rng.random() < self.pf.big_disk:
-            disk = rng.choice([1, 2]) * 1024 * 1024
+            disk = rng.choice([1, 2, 40]) * 1024 * 1024          # up to 40T (beyond what a 32-bit float holds exactly)
         else:
             disk = rng.choice([4, 6, 8, 10, 12, 16]) * 1024
         return [mem, cpu, disk]
@@ -474,6 +476,13 @@ class MasterDriver:
         if H.affinities and rng.random() < 0.6:
             aff = rng.choice(sorted(H.affinities))
             limits = H.affinities[aff]
+            if limits and rng.random() < 0.5 and not any(za['man']['affinity'] == aff for za in self.Z['apps'].values()):
+                # every instance of the affinity is gone: the application comes back with its limits on other levels
+                vals = list(limits.values())
+                rng.shuffle(vals)
+                levels = rng.sample(['server', 'rack', 'pod', 'cell'], len(vals))
+                limits = dict(zip(levels, vals))
+                H.affinities[aff] = limits
         else:
             aff = 'aff%d' % self._next()
             limits = {}
@@ -484,6 +493,8 @@ class MasterDriver:
             H.affinities[aff] = limits
         demand = [rng.choice([0, 1, 1, 2, 2, 3, 4, 6]) * 1024, rng.choice([0, 1, 1, 2, 2, 3, 4, 6]) * 100,
                   rng.choice([0, 1, 1, 2, 2, 3, 4, 6]) * 1024]
+        if rng.random() < 0.15:
+            demand[2] += rng.choice([1, 3, 5, 1023])              # not every demand is a round number
         man = {'memory': spell_mb(rng, demand[0]), 'cpu': celldrv.spell_cpu(rng, demand[1]),
                'disk': spell_mb(rng, demand[2]), 'affinity': aff}
         if limits:
@@ -693,6 +704,52 @@ class MasterDriver:
                 for v in victims:
                     del self.Z['apps'][v]
                 self.ops.append(('delete_apps', victims))
+        elif kind == 'retention_update' and self.Z['apps']:
+            # the manifest of a scheduled instance is rewritten in place (another data retention timeout) and the
+            # master is told to reload it ('apps' event), as update_app_priorities does for the priority
+            a = rng.choice(sorted(self.Z['apps']))
+            if not self.admin.exists(self.z.path.scheduled(a)):
+                return kind         # unscheduled by the master itself meanwhile (schedule-once)
+            man = self.Z['apps'][a]['man']
+            r = rng.choice([None, 0, 5, 30, 120, 3600])
+            if r is None:
+                man.pop('data_retention_timeout', None)
+            else:
+                man['data_retention_timeout'] = spell_secs(rng, r)
+            stored = self.zkutils.get(self.admin, self.z.path.scheduled(a))
+            stored.pop('data_retention_timeout', None)
+            if r is not None:
+                stored['data_retention_timeout'] = man['data_retention_timeout']
+            self.zkutils.put(self.admin, self.z.path.scheduled(a), stored)
+            self.api.create_event(self.admin, 1, 'apps', [a])
+            self.ops.append(('retention_update', a, man.get('data_retention_timeout')))
+        elif kind == 'bucket_remove' and self.depth == 2 and self.master is not None:
+            # a pod is taken out of the cell while its servers run instances (masterapi.cell_remove_bucket).
+            # Weight 0: the histories the properties quantify over add, remove and change servers, not buckets, and the
+            # unchanged code mishandles a populated pod that leaves the cell in several ways (DESIGN 6, side observations)
+            pods = sorted(b for b, h in self.H.buckets.items() if h['level'] == 'pod' and b in self.Z['cell_members'])
+            if len(pods) > 1:
+                self.settle_delivery()
+                pod = rng.choice(pods)
+                self.api.cell_remove_bucket(self.admin, pod)
+                self.Z['cell_members'].discard(pod)
+                self.ops.append(('bucket_remove', pod))
+        elif kind == 'server_delete_event_lost' and len(servers) > 2:
+            # masterapi.delete_server that lost its connection after the nodes were deleted and before the 'servers'
+            # event was created; the operator then asks for a reload of all servers (a 'servers' event naming none)
+            s_ = rng.choice(servers)
+            self.zkutils.ensure_deleted(self.admin, self.z.path.server(s_))
+            self.zkutils.ensure_deleted(self.admin, self.z.path.placement(s_))
+            self.lost.pop(s_, None)
+            del self.Z['servers'][s_]
+            cl = self.node_clients.pop(s_, None)
+            if cl is not None:
+                self.srv.expire(cl.sid)
+            self.api.create_event(self.admin, 0, 'servers', None)
+            self.ops.append(('server_delete_event_lost_then_reload_all', s_))
+        elif kind == 'servers_reload_all':
+            self.api.create_event(self.admin, 0, 'servers', None)
+            self.ops.append(('servers_reload_all',))
         elif kind == 'partition_schedule':
             # what cellsync writes when the partition's reboot schedule is (re)declared: a running master
             # never re-reads it, its successor slots the servers of the partition by the new schedule
@@ -833,6 +890,11 @@ class MasterDriver:
         # servers
         H.servers = {}
         for name, zs in Z['servers'].items():
+            top = zs['parent']
+            while self.H.buckets.get(top, {}).get('parent'):
+                top = self.H.buckets[top]['parent']
+            if top not in Z.get('cell_members', ()):
+                continue        # its pod was taken out of the cell: not a server of the cell any more
             st = self.zkutils.get_default(self.admin, z.path.placement(name))
             pres = self.zkutils.get_default(self.admin, z.path.server_presence(name))
             state, since = (st['state'], st['since']) if st else (None, None)
